@@ -26,8 +26,8 @@ Proof.
   destruct H as [->|H]; [rewrite N.eqb_refl; reflexivity | rewrite (IH H); apply orb_true_r].
 Qed.
 
-Lemma check_accepts_model sc s k : reachable sc s -> pc s = Finished ->
-  spec_ok (check_case k sc (psums 0 (reps sc)) (recvd s) (closed s)) = true.
+Lemma check_accepts_model sc s k pcs : reachable sc s -> pc s = Finished ->
+  spec_ok (check_case k sc pcs (psums 0 (reps sc)) (recvd s) (closed s)) = true.
 Proof.
   intros Hr Hp.
   destruct (close_result sc s Hr Hp) as (Hc & Ht & Hd & Hs & rw0 & Hrw0).
@@ -38,13 +38,13 @@ Proof.
   rewrite eqbl_refl, (nondecb_of _ _ Hn), Hc. rewrite Hrw.
   rewrite removelast_last, last_last, Hs, N.eqb_refl.
   assert (Hnil : is_nil (rw ++ [total sc]) = false) by (destruct rw; reflexivity). rewrite Hnil.
-  assert (Hall : forallb (fun v => memb v (psums 0 (reps sc))) rw = true).
-  { apply forallb_forall. intros v Hv. apply memb_In. rewrite <- Hd. apply (sublist_In _ _ _ Hsub). assumption. }
+  assert (Hall : forallb (fun v => memb v (psums 0 (reps sc)) || memb v (psums 0 pcs)) rw = true).
+  { apply forallb_forall. intros v Hv. rewrite memb_In; [reflexivity|]. rewrite <- Hd. apply (sublist_In _ _ _ Hsub). assumption. }
   rewrite Hall. reflexivity.
 Qed.
 
-Lemma model_run_exhibits_run k sc sizes rc cl :
-  model_run (check_case k sc sizes rc cl) = true ->
+Lemma model_run_exhibits_run k sc pcs sizes rc cl :
+  model_run (check_case k sc pcs sizes rc cl) = true ->
   exists s, reachable sc s /\ recvd s = rc /\ size s = last sizes 0 /\ closed s = cl.
 Proof.
   unfold check_case. cbn [model_run]. intros H. apply andb_prop in H. destruct H as [_ H].
